@@ -93,3 +93,7 @@ pub fn acos_stub(z: f64) -> f64 {
   unsafe { memo_put(&raw mut ACOS_MEMO, z.to_bits(), r.to_bits()); }
   r
 }
+
+// ---- formatting / printing are environment: error paths build their messages with format!, one table function prints ----
+pub fn stub_format(_args: std::fmt::Arguments<'_>) -> String { String::new() }
+pub fn stub_print(_args: std::fmt::Arguments<'_>) {}
